@@ -802,12 +802,11 @@ func cpCoq(c *Case) string {
 	for i, cu := range c.CUs {
 		cus[i] = cu.coq()
 	}
-	if c.alg() == "partition" {
-		return "" // the partition algorithm has no Coq model: monitor only
-	}
 	alg := "RoundRobin"
 	if c.alg() == "greedy" {
 		alg = "Greedy"
+	} else if c.alg() == "partition" {
+		alg = "Partition"
 	}
 	return fmt.Sprintf("mkCCase (mkCpCfg %s %d %d %d %d%%nat) %s %d%%nat [%s]", alg, c.LaunchOv, c.SubOv, effKernelOv(c.KernelOv),
 		c.capOr4096(), vh.CoqList(cus), c.NDisp, strings.Join(items, ";\n  "))
